@@ -139,22 +139,28 @@ func hsFamilies(w *world) []*Family {
 			// identities: a deputy, the node itself, the all-zero nonce
 			for _, id := range []string{"d1", "d0", "outsider"} {
 				id := id
-				emit(func() Case { return one(fmt.Sprintf("hs/%s/valid/identity=%s", r.n, id), func() []byte {
-					if r.client {
-						return r.valid()
-					}
-					return packet(seal(nodePub(), remoteEph().Priv, enc(clientHello(node.K(id).Priv, remoteRnd().Priv, nodePub(), fixedNonce))))
-				}, errTimeout) })
+				emit(func() Case {
+					return one(fmt.Sprintf("hs/%s/valid/identity=%s", r.n, id), func() []byte {
+						if r.client {
+							return r.valid()
+						}
+						return packet(seal(nodePub(), remoteEph().Priv, enc(clientHello(node.K(id).Priv, remoteRnd().Priv, nodePub(), fixedNonce))))
+					}, errTimeout)
+				})
 			}
 			// the same valid packet twice, and followed by a frame
-			emit(func() Case { return hs(fmt.Sprintf("hs/%s/valid/twice", r.n), func() [][]byte { return [][]byte{r.valid(), r.valid()} }, errTimeout) })
+			emit(func() Case {
+				return hs(fmt.Sprintf("hs/%s/valid/twice", r.n), func() [][]byte { return [][]byte{r.valid(), r.valid()} }, errTimeout)
+			})
 		})
 		add(r.n+"/prefix", 2, func(th bool, emit func(func() Case)) {
 			n := len(r.valid())
 			for cut := 0; cut < n; cut++ {
 				for _, e := range ends {
 					cut, e := cut, e
-					emit(func() Case { return one(fmt.Sprintf("hs/%s/prefix/cut=%03d/then-%s", r.n, cut, e.n), func() []byte { return r.valid()[:cut] }, e.e) })
+					emit(func() Case {
+						return one(fmt.Sprintf("hs/%s/prefix/cut=%03d/then-%s", r.n, cut, e.n), func() []byte { return r.valid()[:cut] }, e.e)
+					})
 				}
 			}
 		})
@@ -162,7 +168,9 @@ func hsFamilies(w *world) []*Family {
 			n := len(r.valid())
 			for a := 0; a <= n; a++ {
 				a := a
-				emit(func() Case { return hs(fmt.Sprintf("hs/%s/split/2/at=%03d", r.n, a), func() [][]byte { v := r.valid(); return [][]byte{v[:a], v[a:]} }, errTimeout) })
+				emit(func() Case {
+					return hs(fmt.Sprintf("hs/%s/split/2/at=%03d", r.n, a), func() [][]byte { v := r.valid(); return [][]byte{v[:a], v[a:]} }, errTimeout)
+				})
 			}
 			lim := 8
 			if th {
@@ -171,17 +179,21 @@ func hsFamilies(w *world) []*Family {
 			for a := 0; a <= lim; a++ {
 				for b := a; b <= lim; b++ {
 					a, b := a, b
-					emit(func() Case { return hs(fmt.Sprintf("hs/%s/split/3/at=%03d,%03d", r.n, a, b), func() [][]byte { v := r.valid(); return [][]byte{v[:a], v[a:b], v[b:]} }, errTimeout) })
+					emit(func() Case {
+						return hs(fmt.Sprintf("hs/%s/split/3/at=%03d,%03d", r.n, a, b), func() [][]byte { v := r.valid(); return [][]byte{v[:a], v[a:b], v[b:]} }, errTimeout)
+					})
 				}
 			}
-			emit(func() Case { return hs(fmt.Sprintf("hs/%s/split/bytewise", r.n), func() [][]byte {
-				v := r.valid()
-				var ch [][]byte
-				for i := range v {
-					ch = append(ch, v[i:i+1])
-				}
-				return ch
-			}, errTimeout) })
+			emit(func() Case {
+				return hs(fmt.Sprintf("hs/%s/split/bytewise", r.n), func() [][]byte {
+					v := r.valid()
+					var ch [][]byte
+					for i := range v {
+						ch = append(ch, v[i:i+1])
+					}
+					return ch
+				}, errTimeout)
+			})
 		})
 		add(r.n+"/magic", 1, func(th bool, emit func(func() Case)) {
 			for pos := 0; pos < 2; pos++ {
@@ -190,7 +202,9 @@ func hsFamilies(w *world) []*Family {
 					if byte(v) == magic[pos] {
 						continue
 					}
-					emit(func() Case { return one(fmt.Sprintf("hs/%s/magic/pos=%d/val=%02x", r.n, pos, v), func() []byte { return withByte(r.valid(), pos, byte(v)) }, errTimeout) })
+					emit(func() Case {
+						return one(fmt.Sprintf("hs/%s/magic/pos=%d/val=%02x", r.n, pos, v), func() []byte { return withByte(r.valid(), pos, byte(v)) }, errTimeout)
+					})
 				}
 			}
 		})
@@ -206,16 +220,18 @@ func hsFamilies(w *world) []*Family {
 						if follow == "as-declared-zeros" && d > 1<<20 {
 							continue
 						}
-						emit(func() Case { return one(fmt.Sprintf("hs/%s/len/declared=%d/%s/then-%s", r.n, d, follow, e.n), func() []byte {
-							var body []byte
-							switch follow {
-							case "valid-body":
-								body = r.valid()[6:]
-							case "as-declared-zeros":
-								body = make([]byte, d)
-							}
-							return packetLen(d, body)
-						}, e.e) })
+						emit(func() Case {
+							return one(fmt.Sprintf("hs/%s/len/declared=%d/%s/then-%s", r.n, d, follow, e.n), func() []byte {
+								var body []byte
+								switch follow {
+								case "valid-body":
+									body = r.valid()[6:]
+								case "as-declared-zeros":
+									body = make([]byte, d)
+								}
+								return packetLen(d, body)
+							}, e.e)
+						})
 					}
 				}
 			}
@@ -226,7 +242,9 @@ func hsFamilies(w *world) []*Family {
 			for pos := range v0 {
 				for _, v := range byteVals(v0[pos], th) {
 					pos, v := pos, v
-					emit(func() Case { return one(fmt.Sprintf("hs/%s/mut/pos=%03d/val=%02x", r.n, pos, v), func() []byte { return withByte(r.valid(), pos, v) }, errTimeout) })
+					emit(func() Case {
+						return one(fmt.Sprintf("hs/%s/mut/pos=%03d/val=%02x", r.n, pos, v), func() []byte { return withByte(r.valid(), pos, v) }, errTimeout)
+					})
 				}
 			}
 		})
@@ -241,32 +259,40 @@ func hsFamilies(w *world) []*Family {
 			for _, l := range lens {
 				for _, fill := range []byte{0x00, 0xc0, 0xff} {
 					l, fill := l, fill
-					emit(func() Case { return one(fmt.Sprintf("hs/%s/sealed-em/len=%05d/fill=%02x", r.n, l, fill), func() []byte {
-						return packet(sealEM(nodePub(), remoteEph().Priv, bytes.Repeat([]byte{fill}, l)))
-					}, errTimeout) })
+					emit(func() Case {
+						return one(fmt.Sprintf("hs/%s/sealed-em/len=%05d/fill=%02x", r.n, l, fill), func() []byte {
+							return packet(sealEM(nodePub(), remoteEph().Priv, bytes.Repeat([]byte{fill}, l)))
+						}, errTimeout)
+					})
 				}
 			}
 			// ephemeral key formats: compressed / hybrid markers, point not on the curve, infinity
 			for _, first := range []byte{0x00, 0x02, 0x03, 0x04, 0x05, 0x06, 0x07} {
 				first := first
-				emit(func() Case { return one(fmt.Sprintf("hs/%s/sealed-em/ephemeral-marker=%02x", r.n, first), func() []byte {
-					return packet(withByte(seal(nodePub(), remoteEph().Priv, r.plain()), 0, first))
-				}, errTimeout) })
+				emit(func() Case {
+					return one(fmt.Sprintf("hs/%s/sealed-em/ephemeral-marker=%02x", r.n, first), func() []byte {
+						return packet(withByte(seal(nodePub(), remoteEph().Priv, r.plain()), 0, first))
+					}, errTimeout)
+				})
 			}
-			emit(func() Case { return one(fmt.Sprintf("hs/%s/sealed-em/ephemeral=zero-point", r.n), func() []byte {
-				e := seal(nodePub(), remoteEph().Priv, r.plain())
-				for i := 1; i < 65; i++ {
-					e[i] = 0
-				}
-				return packet(e)
-			}, errTimeout) })
+			emit(func() Case {
+				return one(fmt.Sprintf("hs/%s/sealed-em/ephemeral=zero-point", r.n), func() []byte {
+					e := seal(nodePub(), remoteEph().Priv, r.plain())
+					for i := 1; i < 65; i++ {
+						e[i] = 0
+					}
+					return packet(e)
+				}, errTimeout)
+			})
 		})
 		add(r.n+"/plain-trunc", 6, func(th bool, emit func(func() Case)) {
 			// correctly sealed plaintexts: every truncation of the RLP
 			p := r.plain()
 			for cut := 0; cut <= len(p); cut++ {
 				cut := cut
-				emit(func() Case { return one(fmt.Sprintf("hs/%s/plain-trunc/cut=%03d", r.n, cut), func() []byte { return packet(seal(nodePub(), remoteEph().Priv, r.plain()[:cut])) }, errTimeout) })
+				emit(func() Case {
+					return one(fmt.Sprintf("hs/%s/plain-trunc/cut=%03d", r.n, cut), func() []byte { return packet(seal(nodePub(), remoteEph().Priv, r.plain()[:cut])) }, errTimeout)
+				})
 			}
 		})
 		add(r.n+"/plain-mut", 8, func(th bool, emit func(func() Case)) {
@@ -284,7 +310,9 @@ func hsFamilies(w *world) []*Family {
 						continue
 					}
 					pos, v := pos, v
-					emit(func() Case { return one(fmt.Sprintf("hs/%s/plain-mut/pos=%03d/val=%02x", r.n, pos, v), func() []byte { return packet(seal(nodePub(), remoteEph().Priv, withByte(r.plain(), pos, v))) }, errTimeout) })
+					emit(func() Case {
+						return one(fmt.Sprintf("hs/%s/plain-mut/pos=%03d/val=%02x", r.n, pos, v), func() []byte { return packet(seal(nodePub(), remoteEph().Priv, withByte(r.plain(), pos, v))) }, errTimeout)
+					})
 				}
 			}
 		})
@@ -294,7 +322,9 @@ func hsFamilies(w *world) []*Family {
 					continue
 				}
 				p := p
-				emit(func() Case { return one(fmt.Sprintf("hs/%s/plain-rlp/%s", r.n, p.name), func() []byte { return packet(seal(nodePub(), remoteEph().Priv, p.b)) }, errTimeout) })
+				emit(func() Case {
+					return one(fmt.Sprintf("hs/%s/plain-rlp/%s", r.n, p.name), func() []byte { return packet(seal(nodePub(), remoteEph().Priv, p.b)) }, errTimeout)
+				})
 			}
 		})
 		add(r.n+"/plain-shape", 8, func(th bool, emit func(func() Case)) {
@@ -358,7 +388,9 @@ func hsFamilies(w *world) []*Family {
 			}
 			for _, s := range shapes {
 				s := s
-				emit(func() Case { return one(fmt.Sprintf("hs/%s/plain-shape/%s", r.n, s.n), func() []byte { return packet(seal(nodePub(), remoteEph().Priv, s.b())) }, errTimeout) })
+				emit(func() Case {
+					return one(fmt.Sprintf("hs/%s/plain-shape/%s", r.n, s.n), func() []byte { return packet(seal(nodePub(), remoteEph().Priv, s.b())) }, errTimeout)
+				})
 			}
 		})
 	}
